@@ -491,6 +491,39 @@ func (e *Exec) zzIntrinsic(name string, args []Value) (Value, bool) {
 		return &SliceV{arr: arr, off: 0, len: n, cap: n}, true
 	case "zzInterleave":
 		return e.b.Bool(e.interleave(args[0], args[1], e.argInt(args[2]))), true
+	case "zzMemoObj":
+		// zzMemoObj(name, out, ins...): like zzUFObj, but the outputs are fresh unconstrained values
+		// memoised on the syntactic identity of the inputs.  Two calls with identical input terms get
+		// the same outputs; calls whose inputs differ syntactically get independent outputs (an
+		// over-approximation of a function: it can only add behaviours, never hide one).
+		nm := e.argStr(args[0])
+		var key strings.Builder
+		key.WriteString(nm)
+		for _, a := range e.variadic(args[2]) {
+			e.walkLeaves(a, func(c *Cell) {
+				if _, _, ok := intWidth(c.typ); ok {
+					fmt.Fprintf(&key, ",%d", e.termOf(c.v).ID)
+				}
+			})
+		}
+		if e.run.memoObj == nil {
+			e.run.memoObj = map[string][]*Term{}
+		}
+		outs, seen := e.run.memoObj[key.String()]
+		idx := 0
+		e.run.stubs["memo-function:"+nm] = true
+		e.walkLeaves(args[1], func(c *Cell) {
+			if w, _, ok := intWidth(c.typ); ok {
+				if !seen {
+					e.run.havocN++
+					outs = append(outs, b.Var(fmt.Sprintf("memo!%s!%d!%d", nm, e.run.havocN, idx), Sort(w)))
+				}
+				c.v = outs[idx]
+				idx++
+			}
+		})
+		e.run.memoObj[key.String()] = outs
+		return nil, true
 	case "zzUFObj":
 		// zzUFObj(name, out, ins...): every integer leaf of *out becomes an uninterpreted function
 		// (one per leaf position) of all integer leaves of the inputs
@@ -504,10 +537,18 @@ func (e *Exec) zzIntrinsic(name string, args []Value) (Value, bool) {
 			})
 		}
 		idx := 0
+		var arg *Term
+		if len(parts) > 0 {
+			arg = e.concatLE(parts)
+		}
+		e.run.stubs["UF:"+nm] = true
 		e.walkLeaves(args[1], func(c *Cell) {
 			if w, _, ok := intWidth(c.typ); ok {
-				bs := e.ufBytes(fmt.Sprintf("%s.%d", nm, idx), parts, (w+7)/8)
-				c.v = e.b.Extract(e.concatLE(bs), w-1, 0)
+				if arg == nil {
+					c.v = b.UF(fmt.Sprintf("%s.%d_0_%d", nm, idx, w), Sort(w))
+				} else {
+					c.v = b.UF(fmt.Sprintf("%s.%d_%d_%d", nm, idx, int(arg.S), w), Sort(w), arg)
+				}
 				idx++
 			}
 		})
